@@ -196,6 +196,10 @@ def bfs(cfg, res, tier):
                     if obs[0] and (obs[0][0][0] in '45' or v is not None or cl):
                         res.interesting((h, name, v))
                     report(cfg, res, viols, bv, hist + [(name, v)])
+                    if viols:
+                        # implementation and reference have parted ways on this transition: what follows it says nothing
+                        # new (and the product of two diverged state spaces would only make the search run away)
+                        continue
                     h2 = stable_hash(key)
                     if h2 not in seen:
                         seen[h2] = (bv, hist + [(name, v)], cl)
